@@ -99,8 +99,12 @@ Definition set_w (o : op_rw) (m : N) := {| o_flags := o_flags o; o_phys := o_phy
 Definition set_e (o : op_rw) (m : N) := {| o_flags := o_flags o; o_phys := o_phys o; o_rmsize := o_rmsize o; o_clc := o_clc o; o_r := o_r o; o_w := o_w o; o_e := m |}.
 
 (* rw_zero_extend_gp / rw_zero_extend_avx_vec / rw_zero_extend_non_vec *)
+(* with fixes/C12-gp-partial-write-masks.patch: in 32-bit mode a 32-bit register that receives a narrower result reports the zeroed rest *)
 Definition zext_gp (o : op_rw) (regsize native : N) : op_rw :=
-  if regsize + 4 =? native then set_e (add_flags o fZExt) (N.land (not64 (o_w o)) 255) else o.
+  if regsize + 4 =? native then set_e (add_flags o fZExt) (N.land (not64 (o_w o)) 255)
+  else if (regsize =? 4) && (native =? 4) then
+    (let m := N.land (not64 (o_w o)) 15 in if m =? 0 then o else set_e (add_flags o fZExt) m)
+  else o.
 Definition zext_avx_vec (o : op_rw) : op_rw :=
   let m := not64 (fill_trailing (o_w o)) in if m =? 0 then o else set_e (add_flags o fZExt) m.
 Definition zext_non_vec (o : op_rw) (group : N) : op_rw :=
@@ -127,6 +131,7 @@ Definition handle_avx512 (q : query) (avx512 : N) (out : rw_info) : rw_info :=
 (* one operand of the generic path; returns the operand info (before the Reg/Mem post-pass) *)
 Definition generic_op (T : tables) (native : N) (row : rw_row) (i : nat) (src : operand) : op_rw :=
   let d := nthN (t_op T) (nth i (rr_ops row) 0) d_op in
+  (* [i] is the index of the record's entry: the operand's position, or its entry in the explicit form (see select_row) *)
   if negb (is_reg_or_mem src) then op_zero else
   let fl := clear (or_flags d) fZExt in
   let r := if test fl fR && (or_r d =? 0) then lsb_mask (op_size src) else or_r d in
@@ -158,11 +163,35 @@ Definition rm_size_of (rm : rm_row) (src : operand) (maxsz : N) : option N :=
 Definition set_info (out : rw_info) (iflags rmfeat : N) (ops : list op_rw) : rw_info :=
   {| i_flags := iflags; i_rmfeat := rmfeat; i_rf := i_rf out; i_wf := i_wf out; i_extra := i_extra out; i_ops := ops |}.
 
-Definition generic (T : tables) (q : query) (row : rw_row) (rm : rm_row) (avx512 : N) (out0 : rw_info) : rw_info :=
+(* rw_info_of (with fixes/C12-implicit-operand-shapes.patch): the record for [nops] operands and the map operand -> entry.  When the
+   operands given are exactly a generic record's entries without its fixed (implicit) registers / memory, each operand is described by
+   its own entry (div(ecx), cmpxchg(ebx, ecx), cmpxchg8b(mem), blendvps(xmm1, xmm2)); record B is tried before record A. *)
+Definition entry_count (row : rw_row) : nat :=
+  fold_left (fun acc p => if snd p =? 0 then acc else S (fst p)) (combine (seq 0 6) (rr_ops row)) 0%nat.
+Definition fixed_entry (T : tables) (row : rw_row) (i : nat) : bool :=
+  test (or_flags (nthN (t_op T) (nth i (rr_ops row) 0) d_op)) (fRegPhys + fMemPhys).
+Definition implicit_map (T : tables) (row : rw_row) (nops : nat) : option (list nat) :=
+  if 1 <? rr_cat row then None else
+  let n := entry_count row in
+  let m := filter (fun i => negb (fixed_entry T row i)) (seq 0 n) in
+  if negb (Nat.eqb (length m) n) && Nat.eqb (length m) nops then Some m else None.
+Definition select_row (T : tables) (ii : inst_row) (nops : nat) : rw_row * list nat :=
+  let rb := nthN (t_rwb T) (ir_b ii) d_rw in
+  let ra := nthN (t_rwa T) (ir_a ii) d_rw in
+  let sel := if Nat.eqb nops 2 then ra else rb in
+  if (rr_cat sel <=? 1) && negb (Nat.eqb (entry_count sel) nops) then
+    match implicit_map T rb nops with
+    | Some m => (rb, m)
+    | None => match implicit_map T ra nops with Some m => (ra, m) | None => (sel, seq 0 6) end
+    end
+  else (sel, seq 0 6).
+
+Definition generic (T : tables) (q : query) (row : rw_row) (omap : list nat) (rm : rm_row) (avx512 : N) (out0 : rw_info) : rw_info :=
   let ops := q_ops q in
   let native := native_gp_size (q_arch64 q) in
-  let outs := mapi (generic_op T native row) 0 ops in
-  let regmask := fold_left (fun acc p => if is_reg (snd p) then N.lor acc (N.shiftl 1 (N.of_nat (fst p))) else acc) (combine (seq 0 (length ops)) ops) 0 in
+  let outs := mapi (fun i src => generic_op T native row (nth i omap i) src) 0 ops in
+  let regmask := fold_left (fun acc p => if is_reg (snd p) && N.testbit (rm_ops rm) (N.of_nat (nth (fst p) omap (fst p)))
+                                         then N.lor acc (N.shiftl 1 (N.of_nat (fst p))) else acc) (combine (seq 0 (length ops)) ops) 0 in
   let maxsz := fold_left (fun acc o => if is_reg o then N.max acc (op_size o) else acc) ops 0 in
   let nops := length ops in
   let iflags := if test (i_flags out0) kMovOp then
@@ -179,7 +208,19 @@ Definition generic (T : tables) (q : query) (row : rw_row) (rm : rm_row) (avx512
       else
         if negb (Nat.eqb nops 3) || negb (is_imm (opn ops 2)) then (outs, 0, regmask) else (outs, i_rmfeat out0, regmask)
     else (outs, i_rmfeat out0, regmask) in
-  let rmmask := N.land regmask (rm_ops rm) in
+  (* with fixes/C12-regmem-single-candidate.patch: several flagged register operands -> only the one the all-register form encodes in
+     ModRM.rm (GP side of a move between register files; last source of a three-operand form) *)
+  let rmmask :=
+    if negb (N.land regmask (regmask - 1) =? 0) then
+      match ops with
+      | [OReg ta _; OReg tb _] =>
+          if negb (reg_group ta =? reg_group tb) then
+            (if reg_group ta =? grp_gp then 1 else if reg_group tb =? grp_gp then 2 else regmask)
+          else regmask
+      | [_; _; _] => if regmask =? 6 then 4 else regmask
+      | _ => regmask
+      end
+    else regmask in
   let outs :=
     if negb (rmmask =? 0) && negb (test (q_options q) optER) then
       mapi (fun i o => if N.testbit rmmask (N.of_nat i) then
@@ -214,7 +255,7 @@ Definition cat_mov (q : query) (out : rw_info) : option rw_info :=
     if is_reg a && is_reg b && is_gp a && is_gp b then
       Some (with_iflags (with_ops out [zext_gp (op_reset (fW + fRegM) sa kIdBad) sa native; op_reset (fR + fRegM) sb kIdBad]) (N.lor (i_flags out) kMovOp))
     else if is_reg a && is_reg b && is_gp a && is_seg b then
-      Some (with_ops out [set_rmsize (op_reset (fW + fRegM) native kIdBad) 2; op_reset fR 2 kIdBad])
+      Some (with_ops out [set_rmsize (op_reset (fW + fRegM) (if sa =? 2 then 2 else native) kIdBad) 2; op_reset fR 2 kIdBad])
     else if is_reg a && is_reg b && is_seg a && is_gp b then
       Some (with_ops out [op_reset fW 2 kIdBad; set_rmsize (op_reset (fR + fRegM) 2 kIdBad) 2])
     else if is_reg a && is_reg b && ((is_gp a && is_crdr b) || (is_crdr a && is_gp b)) then
@@ -253,6 +294,7 @@ Definition cat_movabs (q : query) (out : rw_info) : option rw_info :=
 Definition cat_imul (q : query) (out : rw_info) : option rw_info :=
   let native := native_gp_size (q_arch64 q) in
   match q_ops q with
+  | [a] => Some (with_ops out [add_mib_if_mem a (op_reset (fR + fRegM) (op_size a) kIdBad)])   (* fixes/C12-imul-implicit-shape.patch *)
   | [a; b] =>
     let sa := op_size a in
     if is_reg a && is_imm b then Some (with_ops out [zext_gp (op_reset fX sa kIdBad) sa native; op_zero])
@@ -382,13 +424,13 @@ Definition query_rw_info (T : tables) (q : query) : option rw_info :=
   let ii := nthN (t_inst T) (q_id q) d_inst in
   let ad := nthN (t_addl T) (ir_addl ii) d_addl in
   let rwf := nthN (t_rwflags T) (ad_rwflags ad) (0, 0) in
-  let row := if Nat.eqb (length (q_ops q)) 2 then nthN (t_rwa T) (ir_a ii) d_rw else nthN (t_rwb T) (ir_b ii) d_rw in
+  let '(row, omap) := select_row T ii (length (q_ops q)) in
   let rm := nthN (t_rm T) (rr_rm row) d_rm in
   let out := {| i_flags := nthN (t_iflags T) (ad_iflags ad) 0; i_rmfeat := rm_feat rm; i_rf := fst rwf; i_wf := snd rwf;
                 i_extra := op_zero; i_ops := [] |} in
   let av := ir_avx512 ii in
   match rr_cat row with
-  | 0 | 1 => Some (generic T q row rm av out)
+  | 0 | 1 => Some (generic T q row omap rm av out)
   | 2 => cat_mov q out
   | 3 => cat_movabs q out
   | 4 => cat_imul q out
